@@ -94,7 +94,8 @@ async fn scenario(sim: Arc<Sim>, unit: Value, header: String, dur_ms: u64) -> Ob
     }
     let callee_spec = NodeSpec::new(2).config(callee_cfg);
     let a = if user_layer {
-        sim.start_with_user_layer(&caller_spec).unwrap()
+        // the two builder orders (configuration first / layer first) alternate with the latency
+        sim.start_with_user_layer_ordered(&caller_spec, lat_ms == 5).unwrap()
     } else {
         sim.start(&caller_spec).unwrap()
     };
@@ -340,7 +341,7 @@ impl Check for C11 {
         CheckMeta {
             property: "C11",
             level: "exploration",
-            rule: "full cross product of (callee inbound default, caller outbound default) in {none,0,50ms,200ms}^2, header in a 12-value menu (absent, 0, 1, 60ms, 100ms, 10s, u64::MAX, overflow, non-numeric...), handler duration in {0,30ms,120ms,1s,never}, latency {2,5}ms, with/without a user outbound layer (which in a third variant stamps the timeout header itself, below the caller's own timeout layer, so that only the serving side can enforce it), via Network::rpc and Peer::rpc; thorough also crosses the settings of the other two ends; each case is one whole-system execution in virtual time compared with the closed-form min() reference; distinct = distinct (expected outcome kind, handler fate)".into(),
+            rule: "full cross product of (callee inbound default, caller outbound default) in {none,0,50ms,200ms}^2, header in a 12-value menu (absent, 0, 1, 60ms, 100ms, 10s, u64::MAX, overflow, non-numeric...), handler duration in {0,30ms,120ms,1s,never}, latency {2,5}ms, with/without a user outbound layer (given to the builder after the configuration at 2 ms latency, before it at 5 ms; which in a third variant stamps the timeout header itself, below the caller's own timeout layer, so that only the serving side can enforce it), via Network::rpc and Peer::rpc; thorough also crosses the settings of the other two ends; each case is one whole-system execution in virtual time compared with the closed-form min() reference; distinct = distinct (expected outcome kind, handler fate)".into(),
             assumptions: vec![
                 "virtual time: completion instants are compared to the millisecond; cases whose two candidate deadlines lie within 2 ms of each other are excluded as ties and counted".into(),
             ],
